@@ -9,12 +9,12 @@ CHECK = dict(
                'with at most N fields deviating from each base string, every target type x 3 character types, the reference texts around every time_point limit, and all fraction strings up to the stated length. '
                'Says nothing about strings outside the templates (e.g. four or more simultaneous deviations) or magnitudes between the alphabet symbols.',
     level_note='Trusted: ref/ref_calendar.hpp (strict recognisers of the documented grammars, the lenient/malformed classifier, calendar arithmetic in __int128; the two are cross-checked on every generated word), the explorer engine. '
-               'Variant p256 (ASan+UBSan) runs the grammar scenarios and the shorter fractions, variant fast (-O2) additionally all fractions up to 9 digits (thorough) / 7 digits (quick).',
+               'Variant fast (-O2) runs everything stated in the rule. Variant p256 (ASan+UBSan) runs the same words with up to 2 deviating fields; words with 3 deviating fields (thorough) as char only; fractions up to 6 (quick 5) digits plus boundary classes; words of a class that runs into a known UBSan abort (year -2^63; numbers 2^63..2^64-1 per target and sign; dates below the minimum of 64-bit days) are run until the first abort of that class and skipped afterwards (engine crash memo), because every abort costs a process restart.',
     rule='exhaustive enumeration: (0) date-time words: 4 base strings x 14 fields (year/month/day/hour/minute/second/fraction alphabets at, below and above range incl. 2^63, 2^64, 10^20; delimiter, T, Z and trailing mutations) with <=N deviating fields '
          '(N=2 quick, 3 thorough) x {28 time_point types over {ns,us,ms,s,min,h,days} x {int64,int32,uint64,int8}, time_t, tm} x {char,char16_t,char32_t}; (1) per time_point target the reference text of min+k, max+k units, k=-3..3, '
          'x sub-unit parts {0, .4, .5, .6 unit, 1 ns}; (2) duration words per target (28 duration types): 3 base strings (small, decomposition of max, decomposition of min) x 15 fields (magnitudes 0, 1, what the target can hold +-1, 2^31, 2^32, 2^63-1, 2^63, '
          '2^64-1, 2^64, 10^20; Y/M/other designators; fractions outside the seconds part; sign, P, T, trailing mutations) with <=N deviating fields; (3) all fraction strings of 1..L digits (L=9 thorough fast build, 7 quick fast, 6/5 sanitizer build) plus, above L, the rounding-boundary '
-         'residues {0,+-1,half,half+-1} of 10^3/10^6/10^9 ns, as date-time, duration and negative duration into {ns,us,ms,s} x int64. distinct_nontrivial = distinct (target, text) words + fraction blocks.',
+         'residues {0,+-1,half,half+-1} of 10^3/10^6/10^9 ns, as date-time, duration and negative duration into {ns,us,ms,s} x int64. distinct_nontrivial = distinct (target, text) words with up to two deviating fields + boundary texts + fraction blocks (words with three deviating fields are counted as executions only).',
     assumptions=['documented grammar: [+-]YYYY-MM-DDThh:mm:ss[(.|,)f{1,9}]Z and [+-]P[nW][nD][T[nH][nM][n[(.|,)f{1,9}]S]]',
                  'leniencies the documentation does not forbid (unusual digit counts, lower-case designators, characters after the end, second 60, hour 24, >9 fraction digits, repeated or unordered components, dangling T) may be accepted with the denoted value or rejected',
                  'a duration is required to be accepted only when every component is representable in the target on its own and all partial sums are in range (the library accumulates component-wise)',
